@@ -6,6 +6,8 @@
 //   (3 kind xbytes)       New<kind>().UnmarshalBinary(bytes); on success it becomes the root
 //   (4 (path) key)        Get(key) on the container at path
 //   (5 (path))            in-package view of the container at path: marker, count field, len(properties)
+//   (6 (path) xbytes)     UnmarshalBinary(bytes) ON the object at path; the object stays in the graph
+//                         with whatever the call left in it, ALSO WHEN THE CALL FAILED, and is used on
 // A path is a list of keys followed with Get from the root.
 // The direct oracle keeps a SHADOW value tree updated by the API contract alone (Set replaces
 // the value of an existing key in place, else appends; Unmarshal yields what an independent
@@ -115,6 +117,13 @@ func vC05CheckMarshalled(b []byte, err error, size int, want *vC05Node) *vC05Fai
 	if len(b) != size {
 		return &vC05Fail{"marshal-size", fmt.Sprintf("MarshalBinary gave %d bytes, Size() = %d", len(b), size)}
 	}
+	// the independent decoder of the library's layout: in particular a strict array's count on
+	// the wire must be the number of elements that follow (there is no end marker to resync on)
+	if rn, rest, ok := vC05RefDecK(b, true); !ok || len(rest) != 0 {
+		return &vC05Fail{"marshal-layout", fmt.Sprintf("marshalled bytes %s are not one well-formed value (independent decoder: ok=%v, %d bytes left); current value %s", vC05Hex(b), ok, len(rest), vC05ToSx(want))}
+	} else if !vC05Equal(rn, want, true) {
+		return &vC05Fail{"marshal-layout", fmt.Sprintf("marshalled bytes %s read as %s, current value is %s", vC05Hex(b), vC05ToSx(rn), vC05ToSx(want))}
+	}
 	a, code := vC05Decode(b)
 	if code != 0 {
 		return &vC05Fail{"roundtrip", fmt.Sprintf("marshalled bytes %s do not decode (class %d); value %s", vC05Hex(b), code, vC05ToSx(want))}
@@ -133,7 +142,7 @@ func vC05CheckMarshalled(b []byte, err error, size int, want *vC05Node) *vC05Fai
 	return vC05CheckDecoded(bt, at)
 }
 
-func vC05RunHist(ops vSx) (obs vSx, fl *vC05Fail, nontrivial bool) {
+func vC05RunHist(ops vSx) (obs vSx, fl *vC05Fail, nontrivial bool, rejected int) {
 	var root Amf0 = NewObject()
 	shadow := &vC05Node{kind: vC05Obj}
 	out := []vSx{}
@@ -142,10 +151,10 @@ func vC05RunHist(ops vSx) (obs vSx, fl *vC05Fail, nontrivial bool) {
 			fl = &vC05Fail{o, d}
 		}
 	}
-	marshals, setsAfterMarshal := 0, 0
+	marshals, setsAfterMarshal, failedDecodes := 0, 0, 0
 	for oi, op := range ops.l {
 		if !op.isList() || len(op.l) < 1 || !op.l[0].isInt() {
-			return vL(vZ(-1)), nil, false
+			return vL(vZ(-1)), nil, false, 0
 		}
 		var o vSx
 		step := fmt.Sprintf("op %d %s: ", oi, op.String())
@@ -273,6 +282,54 @@ func vC05RunHist(ops vSx) (obs vSx, fl *vC05Fail, nontrivial bool) {
 				if wantv == nil || !vC05Equal(vC05Dump(g), wantv, true) {
 					bad("get", step+fmt.Sprintf("Get returned %s", vC05ToSx(vC05Dump(g))))
 				}
+			case code == 6 && len(op.l) == 3 && op.l[2].isBytes():
+				path, okp := vC05PathBytes(op.l[1])
+				if !okp {
+					o = vL(vZ(-1))
+					return
+				}
+				tgt := vC05LibAt(root, op.l[1].l)
+				sh := vC05ShadowAt(shadow, path)
+				if tgt == nil {
+					o = vL(vZ(3))
+					return
+				}
+				b := op.l[2].b
+				err := tgt.UnmarshalBinary(b)
+				after := vC05Dump(tgt)
+				if err != nil {
+					o = vErr(vC05ErrCode(err))
+					failedDecodes++
+				} else {
+					o = vOk(vC05ToSx(after), vI(tgt.Size()))
+				}
+				if sh == nil {
+					bad("history", step+"Get reached an object the contract does not have")
+					return
+				}
+				want, rest, rok := vC05RefDecK(b, true)
+				rok = rok && want.kind == sh.kind
+				switch {
+				case err == nil && !rok:
+					bad("recv-unmarshal", step+"UnmarshalBinary accepts bytes that do not encode a value of the receiver's type")
+				case err != nil && rok:
+					bad("recv-unmarshal", step+fmt.Sprintf("UnmarshalBinary rejects (%v) bytes that encode %s", err, vC05ToSx(want)))
+				case err == nil:
+					if !vC05Equal(after, want, true) {
+						bad("recv-overwrite", step+fmt.Sprintf("receiver is %s, the bytes encode %s", vC05ToSx(after), vC05ToSx(want)))
+					}
+					if tgt.Size() != len(b)-len(rest) {
+						bad("consumed", step+fmt.Sprintf("Size() = %d after a value of %d bytes", tgt.Size(), len(b)-len(rest)))
+					}
+				default:
+					// rejected: the property promises nothing about what was salvaged, except that a
+					// scalar is untouched; whatever the receiver holds now is its current value and
+					// every later step must be consistent with it
+					if !sh.isContainer() && !vC05Equal(after, sh, true) {
+						bad("recv-unmarshal", step+fmt.Sprintf("a failed UnmarshalBinary changed the scalar %s to %s", vC05ToSx(sh), vC05ToSx(after)))
+					}
+				}
+				*sh = *after
 			case code == 5 && len(op.l) == 2:
 				tgt := vC05LibAt(root, op.l[1].l)
 				ob := vC05Base(tgt)
@@ -299,7 +356,7 @@ func vC05RunHist(ops vSx) (obs vSx, fl *vC05Fail, nontrivial bool) {
 		}
 		out = append(out, o)
 	}
-	return vLs(out), fl, marshals >= 2 && setsAfterMarshal >= 1
+	return vLs(out), fl, (marshals >= 2 && setsAfterMarshal >= 1) || (failedDecodes >= 1 && marshals >= 1), failedDecodes
 }
 
 // ---- generator of histories ----
@@ -352,6 +409,88 @@ func vC05GenHistValue(r *vRng) *vC05Node {
 	return n
 }
 
+// what a rejected decode leaves behind, for the GENERATOR only (to keep choosing paths that
+// exist): header accepted -> the pairs completed before the rejection; otherwise unchanged
+func vC05Salvage(old *vC05Node, b []byte) *vC05Node {
+	if !old.isContainer() || len(b) < 1 || int(b[0]) != old.kind {
+		return old
+	}
+	n := &vC05Node{kind: old.kind}
+	q := b[1:]
+	limit := -1
+	if old.kind != vC05Obj {
+		if len(b) < 5 {
+			return old
+		}
+		c := uint32(b[1])<<24 | uint32(b[2])<<16 | uint32(b[3])<<8 | uint32(b[4])
+		q = b[5:]
+		if old.kind == vC05Ecma {
+			n.count = c
+		} else {
+			limit = int(c)
+		}
+	}
+	for limit < 0 || len(n.props) < limit {
+		if limit < 0 && len(q) >= 3 && q[0] == 0 && q[1] == 0 && q[2] == 9 {
+			break
+		}
+		if len(q) < 2 || len(q) < 2+(int(q[0])<<8|int(q[1])) {
+			break
+		}
+		l := int(q[0])<<8 | int(q[1])
+		v, rest, ok := vC05RefDecK(q[2+l:], true)
+		if !ok {
+			break
+		}
+		n.props = append(n.props, vC05Prop{key: q[2 : 2+l], val: v})
+		q = rest
+	}
+	return n
+}
+
+// damage a valid encoding at one of the rejection points of the decoder
+func vC05Damage(r *vRng, b []byte) []byte {
+	b = append([]byte{}, b...)
+	if len(b) < 2 {
+		return b
+	}
+	switch r.intn(6) {
+	case 0, 1: // cut anywhere: inside a name, a value, an element
+		return b[:r.rng(1, len(b)-1)]
+	case 2: // missing end marker / last byte
+		return b[:len(b)-r.rng(1, 3)%len(b)]
+	case 3: // an unsupported marker in place of some later byte
+		p := r.rng(1, len(b)-1)
+		b[p] = byte(r.pickInt(4, 7, 11, 12, 13, 15, 16, 17, 0xff))
+		return b
+	case 4: // strict/ecma header count larger than what follows
+		if (b[0] == 10 || b[0] == 8) && len(b) >= 5 {
+			b[4] += byte(r.rng(1, 3))
+		} else {
+			return b[:len(b)-1]
+		}
+		return b
+	default: // garbage byte
+		b[r.rng(1, len(b)-1)] ^= byte(1 << uint(r.intn(8)))
+		return b
+	}
+}
+
+func vC05AllPaths(n *vC05Node, prefix [][]byte, out *[][][]byte) {
+	*out = append(*out, append([][]byte{}, prefix...))
+	if !n.isContainer() {
+		return
+	}
+	seen := map[string]bool{}
+	for _, p := range n.props {
+		if seen[string(p.key)] {
+			continue
+		}
+		seen[string(p.key)] = true
+		vC05AllPaths(p.val, append(prefix, p.key), out)
+	}
+}
+
 func vC05GenHist(r *vRng) vSx {
 	ops := []vSx{}
 	shadow := &vC05Node{kind: vC05Obj}
@@ -373,7 +512,32 @@ func vC05GenHist(r *vRng) vSx {
 	}
 	n := r.rng(3, 14)
 	for i := 0; i < n; i++ {
-		switch x := r.intn(20); {
+		switch x := r.intn(25); {
+		case x >= 20: // UnmarshalBinary ON an object of the graph, about half of them damaged
+			var all [][][]byte
+			vC05AllPaths(shadow, nil, &all)
+			path := all[0]
+			if r.chance(2, 3) {
+				path = all[r.intn(len(all))]
+			}
+			sh := vC05ShadowAt(shadow, path)
+			kind := sh.kind
+			if r.chance(1, 12) {
+				kind = vC05AllKinds[r.intn(len(vC05AllKinds))]
+			}
+			b := vC05KeyedEncode(vC05GenOfKind(r, kind, r.chance(1, 5)))
+			if r.chance(3, 5) {
+				b = vC05Damage(r, b)
+			}
+			ops = append(ops, vL(vZ(6), vC05PathSx(path), vB(b)))
+			if want, _, ok := vC05RefDecK(b, true); ok && want.kind == sh.kind {
+				*sh = *want
+			} else {
+				*sh = *vC05Salvage(sh, b)
+			}
+			if r.chance(1, 2) {
+				ops = append(ops, vL(vZ(5), vC05PathSx(path)))
+			}
 		case x < 8: // Set
 			path := pick()
 			sh := vC05ShadowAt(shadow, path)
